@@ -310,7 +310,10 @@ class Contrasts(metaclass=InterfaceMeta):
         sparse: bool = False,
     ) -> Union[pandas.DataFrame, numpy.ndarray, spsparse.spmatrix]:
         coding_matrix = self.get_coding_matrix(levels, reduced_rank, sparse=sparse)
-        return (dummies if sparse else dummies.values) @ coding_matrix
+        # (`dummies` may also be a plain numpy array)
+        return (
+            dummies if sparse else getattr(dummies, "values", dummies)
+        ) @ coding_matrix
 
     # Coding matrix methods
 
